@@ -63,6 +63,14 @@ def main(ctx, args):
                     c["id"] += ":sched"
             gstats.update(st)
             allcases += cs
+    # integer `match`: literal arm tables (dense, sparse, shifted), scrutinees sweeping from below the smallest arm through the
+    # holes to above the largest; no reference semantics (the Core model has no `match`): VM against WASM
+    if not args.replay:
+        import matchgen
+        for i in range(150 if ctx.tier == "quick" else 2000):
+            msrc, minp = matchgen.make_case(ctx.seed, i, times)
+            allcases.append({"id": f"matchint:{ctx.seed}:{i}", "src": msrc, "sx": None, "inputs": minp, "times": times})
+        gstats["matchint_programs"] += 150 if ctx.tier == "quick" else 2000
     # corpus stream: every shipped source that both backends accept, plus token-level mutants (constants, operators)
     corpus_stats = collections.Counter()
     if not args.replay:
